@@ -267,29 +267,18 @@ func (d *Decoder) ReadLenTagObject(tag byte) (interface{}, error) {
 	return EnsureInterface(d.readObject(typ, clsD))
 }
 
-//readObjectDef read object def
-func (d *Decoder) readObjectDef() (interface{}, error) {
+//readObjectDef reads a class definition and adds it to the definitions of this stream.
+// The grammar is value ::= class-def value: whatever value follows - the first instance of the
+// class, a further definition, a list of instances - is read by the caller.
+func (d *Decoder) readObjectDef() error {
 	clsDef, err := d.readClassDef()
 	if err != nil {
-		return nil, err
+		return err
 	}
 	clsD, _ := clsDef.(ClassDef)
 	//add to slice
 	d.clsDefList = append(d.clsDefList, clsD)
-
-	tag, err := d.readTag()
-	if err != nil {
-		return nil, newCodecError("readObjectDef", "reading tag", err)
-	}
-
-	if objectLenTag(tag) {
-		return d.ReadLenTagObject(tag)
-	}
-
-	if tag == _objectTag {
-		return d.readTagObject()
-	}
-	return nil, newCodecError("readObjectDef", "unknown tag after class def: 0x%x", tag)
+	return nil
 }
 
 // var readObjectIndex = 0
